@@ -13,6 +13,7 @@ client's reply is written to another's connection. Does NOT decide concurrent-cl
 from ..sym import show, walk_expr
 from ..common import short, store_hits, place_text, names_type
 from .. import pathq
+from . import names
 from .c07 import socket_coroutine, wire_writes, msg_mutations, is_param_msg
 
 EXPLANATION = __doc__
@@ -250,7 +251,7 @@ def run(ctx, f, rep):
     sub = Report("C08", rep.config)
     c04.check_registration(f, sub)
     for o in sub.obls:
-        if "RepSocketBackend" in o.key and o.rule == "R04.4":
+        if names.of(f, "RepSocketBackend") in o.key and o.rule == "R04.4":
             n += 1
             (rep.ok if o.ok else rep.bad)("R08.5", o.key.replace("R04.4", "R08.5", 1), o.what, o.loc, o.detail)
     rep.floor("R08.5", "identity / registration obligations re-evaluated", n, 5)
